@@ -68,6 +68,10 @@ def gen_case(rng, tier):
             # sync() + unproxy_results() in the MIDDLE of the history: the store goes on being
             # the same table afterwards
             case['mid'] = rng.randrange(1, nops)
+    if kind == 'fakemgr' and rng.random() < 0.3 and nops > 1:
+        # the store object is SERIALISED in mid-history (handed to an executor, a queue, deep
+        # copied): that must not change anything for the process that goes on using it
+        case['ser'] = rng.randrange(1, nops)
     return case
 
 
@@ -122,6 +126,12 @@ def run_impl(case):
                 if case.get('mid') == i:
                     st.sync()
                     st.unproxy_results()
+                if case.get('ser') == i:
+                    import copy
+                    try:
+                        copy.deepcopy(st)
+                    except Exception:  # pylint: disable=broad-except
+                        pass
                 st.alloc_pointer.value += case['bumps'][i] * B
                 table = st.local
             try:
